@@ -172,3 +172,5 @@ def run(F, rep, tier):
                     ok = len(calls) == 1 and any(u[1] == "-" and b_ in render(u[2]) for u in find(calls[0], "un"))
                     rep.check(ok, "C13-R4", "negated:%s" % v, "negated(): the arm for Value::%s does not produce Value::%s(-value): `%s`" % (v, v, render(arm[2])[:80]), sample={"variant": v})
         rep.floor("C13-R4", "negation arms", n, 5)
+    from rules.k2_targets import run_k2
+    run_k2(F, rep, "C13", "C13-R5")
